@@ -3,7 +3,7 @@ import numpy as np
 
 from .. import graphs as G
 from .. import oracles as O
-from .common import call, close, layout_variants_agree
+from .common import call, close, layout_variants_agree, vector_forms_agree
 
 PROP = 'C18'
 ANCHORS = ['mean_first_passage_time', 'diffusion_efficiency', 'pagerank_centrality', 'subgraph_centrality',
@@ -204,6 +204,8 @@ def run_walk(case, bct, REC):
                 if r.shape == (n,):
                     res = float(np.max(np.abs(r - d * (W @ (r / deg)) - (1 - d) * f)))
                     REC.check(PROP, 'pagerank_centrality', 'fixed_point', res <= 1e-10, dict(det, d=d, falff=fal, got=r, residual=res))
+        if n <= 12:
+            vector_forms_agree(REC, PROP, 'pagerank_centrality', bct.pagerank_centrality, (W, .85), {'falff': rs.rand(n) + 0.05}, 'falff')
     if n <= 9:
         for fn in ('mean_first_passage_time', 'diffusion_efficiency'):
             layout_variants_agree(REC, PROP, fn, getattr(bct, fn), W, rtol=1e-7)
